@@ -123,7 +123,7 @@ type Axiom struct {
 	File    string
 	Line    int
 	Floats  string
-	Uses    []string // lemma: axioms by name it may use ("*" = all)
+	Uses    []string // lemma: axioms (by name) that are NOT available to its proof, besides the one it is the base/step of
 }
 
 type SpecLib struct {
@@ -256,8 +256,8 @@ func (lib *SpecLib) loadContractFile(path, pkgPath string) error {
 				switch {
 				case h == "ieee" || h == "real":
 					ax.Floats = h
-				case strings.HasPrefix(h, "uses="):
-					ax.Uses = strings.Split(h[5:], ",")
+				case strings.HasPrefix(h, "without="):
+					ax.Uses = strings.Split(h[8:], ",")
 				}
 			}
 			body, err := parseCExpr(rest[i+2:])
@@ -338,6 +338,9 @@ func (lib *SpecLib) loadContractFile(path, pkgPath string) error {
 					cl.Kind = "loopmodifies"
 				case "decreases":
 					cl.Kind = "decreases"
+				case "step":
+					// two-state clause: holds between the head of an arbitrary iteration (prev(e)) and its end
+					cl.Kind = "step"
 				default:
 					return fail(fmt.Errorf("unknown loop clause %q", sub))
 				}
